@@ -320,6 +320,9 @@ class LabeledUndirectedGraph : protected LabeledDirectedGraph<EdgeLabel> {
         Edges(const LabeledUndirectedGraph<EdgeLabel> &graph) : graph(graph) {}
 
         constEdgeIterator begin() const {
+            if (graph.getSize() == 0)
+                return end();
+
             VertexIndex endVertex = getEndVertex(graph);
 
             VertexIndex vertexWithFirstEdge = 0;
@@ -333,12 +336,21 @@ class LabeledUndirectedGraph : protected LabeledDirectedGraph<EdgeLabel> {
             return constEdgeIterator(graph, vertexWithFirstEdge, neighbour);
         }
         constEdgeIterator end() const {
+            if (graph.getSize() == 0)
+                return constEdgeIterator(graph, 0, noSuccessors().end());
+
             VertexIndex lastVertex = getEndVertex(graph);
             return constEdgeIterator(
                 graph, lastVertex, graph.getOutNeighbours(lastVertex).end()
             );
         }
 
+        // A graph without vertices has no neighbour list to take iterators
+        // from.
+        static const Successors &noSuccessors() {
+            static const Successors empty;
+            return empty;
+        }
         static VertexIndex
         getEndVertex(const LabeledUndirectedGraph<EdgeLabel> &graph) {
             auto vertexNumber = graph.getSize();
